@@ -1,6 +1,7 @@
 package histutil
 
 import (
+	"slices"
 	"strings"
 
 	"src.elv.sh/pkg/store/storedefs"
@@ -18,7 +19,8 @@ func NewMemStore(texts ...string) Store {
 type memStore struct{ cmds []storedefs.Cmd }
 
 func (s *memStore) AllCmds() ([]storedefs.Cmd, error) {
-	return s.cmds, nil
+	// Return a copy: callers are free to reorder the result.
+	return slices.Clone(s.cmds), nil
 }
 
 func (s *memStore) AddCmd(cmd storedefs.Cmd) (int, error) {
